@@ -19,7 +19,10 @@ struct Case {
     if (cfg.comp < 0 || cfg.comp > 5 || cfg.pool > 16 || cfg.prefix_len < 0 || plan.size() > VW_MAX_FAULTS) return false;
     std::set<long> ords;
     for (auto &f : plan) {
-      if (f.kind < VW_SHORT || f.kind > VW_ZERO || f.call < 0 || f.arg < 0) return false;
+      if (f.kind < VW_SHORT || f.kind > VW_STORM || f.call < 0 || f.arg < 0) return false;
+      if (f.kind == VW_DRIBBLE && (f.arg / 1000 > 5000 || f.arg % 1000 < 1)) return false;
+      if (f.kind == VW_STORM && f.arg > 5000) return false;
+      if (f.kind == VW_DRIBBLE || f.kind == VW_STORM) continue;  // ranges; single-call outcomes inside them take precedence
       if (!ords.insert(f.call).second) return false;  // one outcome per write call
     }
     KVs kv = expand_entries(entries);
@@ -116,7 +119,7 @@ static Result run_case(const Case &c) {
       r.nontrivial = hit > 0;
       if (hit > 0) r.tag("fault_reached");
       if (hit > 1) r.tag("multi_fault");
-      for (auto &f : c.plan) r.tag(f.kind == VW_SHORT ? "short_write" : "eintr");
+      for (auto &f : c.plan) r.tag(f.kind == VW_SHORT ? "short_write" : f.kind == VW_DRIBBLE ? "dribble_of_many_short_writes" : f.kind == VW_STORM ? "eintr_storm" : "eintr");
       if (c.cfg.pool > 0) r.tag("pooled");
       r.counters["write_calls_fault_free"] = (long long)p.sizes.size();
     });
@@ -216,6 +219,23 @@ static Case gen_case() {
     for (auto &f : c.plan)
       if (seen.insert(f.call).second) uniq.push_back(f);
     c.plan = uniq;
+  }
+  if (chance(12)) {
+    // "partial of any length >= 1", many times in a row: a run of calls that each accept 1-3 bytes (a 512-byte trailer then
+    // takes hundreds of writes)
+    Fault f;
+    f.call = pick(0, (int)approx_calls);
+    f.kind = VW_DRIBBLE;
+    f.arg = 1000L * pick(40, 700) + pick(1, 3);
+    c.plan.push_back(f);
+  }
+  if (chance(8)) {
+    // "EINTR any number of times"
+    Fault f;
+    f.call = pick(0, (int)approx_calls);
+    f.kind = VW_STORM;
+    f.arg = pick(34, 150);
+    c.plan.push_back(f);
   }
   if (hard) {
     Fault f;
